@@ -70,7 +70,10 @@ namespace sim::io
    struct st_not : pegtl::seq< pegtl::one< '!' >, pegtl::not_at< w_cs< 2 >, pegtl::one< '?' > >, pegtl::opt< w_cs< 2 > > > {};
    template< int K > struct w_as : pegtl::seq< word > {};   // add_state< dstate >
    struct st_add : pegtl::seq< pegtl::one< '+' >, w_as< 0 >, pegtl::opt< pegtl::one< '+' >, pegtl::at< w_as< 1 > >, pegtl::disable< w_as< 2 > > > > {};
-   struct g_states : pegtl::until< pegtl::eof, pegtl::sor< st_on, st_at, st_off, st_rule, st_not, st_add, pegtl::one< ' ' > > > {};
+   template< int K > struct mw_cas : pegtl::seq< word > {};    // change_action_and_state< act2, dstate >
+   template< int K > struct mw_cass : pegtl::seq< word, pegtl::opt< pegtl::one< '.' > > > {};   // change_action_and_states< act2, dstate >
+   struct st_cas : pegtl::seq< pegtl::one< '%' >, mw_cas< 0 >, pegtl::opt< pegtl::one< '%' >, pegtl::at< mw_cas< 1 > >, pegtl::disable< mw_cass< 0 > > >, pegtl::opt< pegtl::one< '~' >, mw_cass< 1 > > > {};
+   struct g_states : pegtl::until< pegtl::eof, pegtl::sor< st_on, st_at, st_off, st_rule, st_not, st_add, st_cas, pegtl::one< ' ' > > > {};
    // 7: a must_if< Errors >::control layered on the recording control: rules with a custom message raise on ANY local
    //    failure (mi_raise_*), except the one that opts out per rule (mi_msg_b: message used only under must<>)
    struct mi_raise_a : pegtl::one< 'a' > {};
@@ -310,6 +313,19 @@ namespace sim
          s.success( in, outer... );
       }
    };
+   template< int K > struct sim_action< io::mw_cas< K > > : pegtl::change_action_and_state< act2, io::dstate > { static constexpr int family = 1; };
+   template< int K > struct sim_action< io::mw_cass< K > > : pegtl::change_action_and_states< act2, io::dstate >
+   {
+      static constexpr int family = 1;
+      template< typename In, typename... Outer >
+      static void success( const In& in, io::dstate& s, Outer&&... outer )
+      {
+         s.success( in, outer... );
+      }
+   };
+   // as in the wired grammar: the action switched TO carries a switch of its own for the same rule
+   template< int K > struct act2< io::mw_cas< K > > : pegtl::enable_action { static constexpr int family = 2; };
+   template< int K > struct act2< io::mw_cass< K > > : pegtl::disable_action { static constexpr int family = 2; };
    template< int K > struct sim_action< io::w_as< K > > : pegtl::add_state< io::dstate >
    {
       static constexpr int family = 1;
